@@ -893,6 +893,9 @@ func RunCheck(spec *CheckSpec) int {
 			g = &group{sig: sig, first: f}
 			groups[sig] = g
 			order = append(order, sig)
+		} else if f.Batch.Sound && !g.first.Batch.Sound && f.Report.Violation.Rule == "RACE" {
+			// the same race also reported by a truly parallel batch: reported as it is
+			g.first = f
 		}
 		g.n++
 	}
